@@ -546,7 +546,7 @@ func c08EnumEdits(size, shard, nshards int, emit func(c07Case)) {
 			for _, which := range []string{"users", "events", "notifications", "named", "named-shadowed"} {
 				for _, op := range ops {
 					for _, added := range []int64{99, -1, 0, 1} {
-						for _, removed := range []int64{99, -1, 0} {
+						for _, removed := range []int64{99, -1, 0, 1} {
 							for _, self := range []string{"keep", "remove", "lower", "raise"} {
 								if which != "users" && self != "keep" {
 									continue
@@ -644,7 +644,7 @@ func c08EditCase(version string, L int64, which string, oldOff, newOff, added, r
 }
 
 func init() {
-	rule := "bounded-exhaustive product: 16 versions x sender level {50,100} x {users, events, notifications, named levels} x (existing entry at L-1/L/L+1/absent -> absent/L-1/L/L+1) x another entry added (none/L-1/L/L+1) x a third entry removed (none/L-1/L) x own entry kept/removed/lowered/raised; size = sampling stride (1 = complete); non-trivial as for C08/pairs"
+	rule := "bounded-exhaustive product: 16 versions x sender level {50,100} x {users, events, notifications, named levels} x (existing entry at L-1/L/L+1/absent -> absent/L-1/L/L+1) x another entry added (none/L-1/L/L+1) x a third entry removed (none/L-1/L/L+1) x own entry kept/removed/lowered/raised; size = sampling stride (1 = complete); non-trivial as for C08/pairs"
 	vfEnum("C08/level-types", rule+" Here: one level of an otherwise unchanged, permitted power-levels event (each named level, a users / events / notifications entry) is replaced by each non-integer spelling (null, numeric string, padded string, float with zero fraction, exponent, fraction, boolean, array, object, huge integer), in every room version.", 1, 1, 4, c08EnumLevelTypes, c08Check)
 	vfEnum("C07/power-level-types", rule+" (the same cases judged against R-auth in both directions)", 1, 1, 4, c08EnumLevelTypes, c07Check)
 	vfEnum("C08/edit-product", rule, 6, 1, 8, c08EnumEdits, c08Check)
